@@ -248,6 +248,7 @@ def validate_trace(pid, scn, trace_path, check_obs=True, timeout=1800, tag="v"):
     consts["CheckObs"] = "= " + ("TRUE" if check_obs else "FALSE")
     consts["ObsFields"] = "= " + vf.tla_set(scn.obs_fields if scn.obs_fields is not None else [])
     consts["MaskByHas"] = "= " + ("TRUE" if getattr(scn, "mask_by_has", False) else "FALSE")
+    consts["OnlyRejected"] = "= " + ("TRUE" if not getattr(scn, "check_valid", True) else "FALSE")
     cfg = vf.write_cfg(os.path.join(d, "MachineTrace.cfg"), consts, init="TInit", nxt="TNext",
                        invariants=(scn.invariants if check_obs else []), properties=[],
                        postcondition=("TraceAccepted" if check_obs else None))
